@@ -21,7 +21,7 @@ ASSUMPTIONS = ["interior cusps (two different one-sided limits) make no claim an
                "regular point: |B'(t)| > 1e-6 * size; tolerance 1e-9 on unit vectors (1e-6 for arcs, cf. C04), curvature to 1e-7 relative"]
 CONFIGS = ['scipy']
 BUDGET = {'quick': 30000, 'thorough': 500000}
-REQUIRED = ['singular_transform:scaled', 'singular_transform:rotated', 'singular:t0', 'singular:t1', 'regular', 'numpy_coords', 'kind:A', 'kind:L', 'transform:rotated', 'transform:scaled_neg',
+REQUIRED = ['singular_transform:matrix', 'singular_transform:scaled_tiny', 'transform:matrix', 'transform:scaled_tiny', 'transform:scaled_huge', 'singular_transform:scaled', 'singular_transform:rotated', 'singular:t0', 'singular:t1', 'regular', 'numpy_coords', 'kind:A', 'kind:L', 'transform:rotated', 'transform:scaled_neg',
             'transform:reversed', 'quadrant:0', 'quadrant:1', 'quadrant:2', 'quadrant:3', 'circular_arc']
 
 EPS = 2.0 ** -52
@@ -55,7 +55,7 @@ def strategy(tier, config):
     def s(draw):
         mode = draw(st.sampled_from(['singular', 'singular', 'regular', 'regular', 'arc', 'line']))
         npc = draw(st.booleans())
-        tr = draw(st.sampled_from(['none', 'translated', 'rotated', 'scaled', 'scaled_neg', 'reversed']))
+        tr = draw(st.sampled_from(['none', 'translated', 'rotated', 'scaled', 'scaled_neg', 'reversed', 'matrix', 'scaled_tiny', 'scaled_huge']))
         tp = {'deg': draw(st.one_of(st.sampled_from([90.0, 180.0, 45.0, -30.0]), gen.floats_in(-360.0, 360.0))),
               'z': [draw(gen.coord()), draw(gen.coord())], 's': draw(gen.floats_in(0.2, 5.0))}
         ts = draw(st.lists(gen.ts_unit, min_size=1, max_size=2))
@@ -109,6 +109,25 @@ def expected_singular_tangent(spec, end):
                 z = -z
             return z / abs(z), k
     return None, None
+
+
+def _transform_of(case, ctx):
+    """(operation, parameters): 'scaled_tiny' / 'scaled_huge' are uniform scalings by 2**-30 / 2**20 (a change of unit)"""
+    tr, tp = case['tr'], case['tp']
+    if tr == 'scaled_tiny':
+        return 'scaled', dict(tp, s=2.0 ** -30, label='scaled_tiny')
+    if tr == 'scaled_huge':
+        return 'scaled', dict(tp, s=2.0 ** 20, label='scaled_huge')
+    return tr, tp
+
+
+def _matrix_image(seg, tp, size):
+    """the rotation by tp['deg'] followed by a translation, applied through transform(seg, 3x3 matrix)"""
+    from svgpathtools.path import transform
+    a = math.radians(tp['deg'])
+    z = gen.C(tp['z']) * size
+    M = np.array([[math.cos(a), -math.sin(a), z.real], [math.sin(a), math.cos(a), z.imag], [0.0, 0.0, 1.0]])
+    return transform(seg, M)
 
 
 def check(case, ctx):
@@ -181,11 +200,19 @@ def check(case, ctx):
                 ctx.check(abs(nv - (-1j) * ut) <= 1e-12, 'singular/normal', 'normal != -1j*unit_tangent at the singular end')
                 # the tangent at the singular end transforms like any other tangent (the operations must keep coincident
                 # control points coincident, otherwise the end tangent of the image is rounding noise)
-                tr = case['tr']
-                tp = case['tp']
+                tr, tp = _transform_of(case, ctx)
+                # conditioning: the first non-vanishing derivative must be visible at the curve's own scale and position, or the
+                # image's end tangent is decided by rounding in the operation's arithmetic (a 1e-278 offset does not survive a translation)
+                pos_s = max(abs(gen.C(p)) for p in spec[1:]) + size * (1 + abs(gen.C(tp['z'])))
+                if tr != 'none' and dk < 1e-6 * pos_s:
+                    ctx.count('singular_transform_skipped_ill_conditioned')
+                    tr = 'none'
                 if tr != 'none':
                     if tr == 'translated':
                         other, ewant, ee = seg.translated(gen.C(tp['z']) * size), want, e
+                    elif tr == 'matrix':
+                        w = complex(math.cos(math.radians(tp['deg'])), math.sin(math.radians(tp['deg'])))
+                        other, ewant, ee = _matrix_image(seg, tp, size), w * want, e
                     elif tr == 'rotated':
                         w = complex(math.cos(math.radians(tp['deg'])), math.sin(math.radians(tp['deg'])))
                         other, ewant, ee = seg.rotated(tp['deg'], 0j), w * want, e
@@ -195,14 +222,13 @@ def check(case, ctx):
                         other, ewant, ee = seg.scaled(-tp['s']), -want, e
                     else:
                         other, ewant, ee = seg.reversed(), -want, 1 - e
-                    ctx.count('singular_transform:' + tr)
+                    ctx.count('singular_transform:' + tp.get('label', tr))
                     got = complex(ctx.lib('unit_tangent/singular/' + tr, other.unit_tangent, float(ee)))
                     ctx.check(abs(got - ewant) <= 1e-6, 'singular/covariance/%s/t%d' % (tr, e),
                               '%s: unit_tangent at the singular end of the image is %r, expected %r' % (tr, got, ewant))
         # -- covariance ------------------------------------------------------------------------------------
-        tr = case['tr']
+        tr, tp = _transform_of(case, ctx)
         if tr != 'none':
-            tp = case['tp']
             t = case['ts'][0]
             d1, d2 = ref_derivs(spec, seg, t)
             if abs(d1) > 1e-6 * size:
@@ -217,6 +243,12 @@ def check(case, ctx):
                     eut, ek, tt = w * base_ut, base_k, t
                     if tp['deg'] % 360:
                         ctx.nontrivial()
+                elif tr == 'matrix':
+                    other = ctx.lib('transform', _matrix_image, seg, tp, size)
+                    w = complex(math.cos(math.radians(tp['deg'])), math.sin(math.radians(tp['deg'])))
+                    eut, ek, tt = w * base_ut, base_k, t
+                    if tp['deg'] % 360:
+                        ctx.nontrivial()
                 elif tr == 'scaled':
                     other = ctx.lib('scaled', seg.scaled, tp['s'])
                     eut, ek, tt = base_ut, base_k / tp['s'], t
@@ -226,7 +258,7 @@ def check(case, ctx):
                 else:
                     other = ctx.lib('reversed', seg.reversed)
                     eut, ek, tt = -base_ut, base_k, 1 - t
-                ctx.count('transform:' + tr)
+                ctx.count('transform:' + tp.get('label', tr))
                 out = complex(ctx.lib('unit_tangent/' + tr, other.unit_tangent, tt))
                 pos_ = max(abs(gen.C(p)) for p in gen.spec_points(spec)) + size * (1 + abs(gen.C(tp['z'])))
                 ctol = (1e-5 if kind == 'A' else 1e-8) + 4096 * EPS * pos_ / abs(d1)
